@@ -60,6 +60,16 @@ def gen(rng, quick):
             ops.append({"op": "sig.verify_batch", "entries": bad + [bad[0]]})
             for lens in ([n - 1, n, n], [n, n - 1, n], [n, n, n - 1], [n - 1, n - 1, n], [0, n, n]):
                 ops.append({"op": "sig.verify_batch", "entries": ents, "lens": lens})
+    # binding of the coefficients: pairs of batches that differ in exactly one input of one entry (the second of each
+    # pair is marked "bind": its coefficients must all differ from the previous batch's)
+    for n in (1, 2, 3, 7):
+        ents = honest(rng, n)
+        for how in ("S", "R", "key", "msg"):
+            p = rng.randrange(n)
+            e2 = list(ents)
+            e2[p] = corrupt(rng, ents[p], how)
+            ops.append({"op": "sig.verify_batch", "entries": ents})
+            ops.append({"op": "sig.verify_batch", "entries": e2, "bind": how})
     # single verification of every entry is specified by C09's predicate; the batch verdict must equal their conjunction
     return ops
 
